@@ -1838,6 +1838,118 @@ def translate_mqtt(repo: str):
     return out
 
 
+# ------------------------------------------------------------------------------------------------
+# Persistence.load / Persistence.save (persistence.py) -> Generated/PersistBodies.lean over Model/LitPersist.lean
+
+
+def _classes(h: ast.ExceptHandler, glob) -> str:
+    if h.type is None:
+        raise Untranslatable("bare except")
+    elts = h.type.elts if isinstance(h.type, ast.Tuple) else [h.type]
+    names = []
+    for e in elts:
+        name = e.id if isinstance(e, ast.Name) else (e.attr if isinstance(e, ast.Attribute) else None)
+        if name not in PYEXN:
+            raise Untranslatable(f"except class {name} outside the model's vocabulary")
+        names.append("." + name)
+    return "[" + ", ".join(names) + "]"
+
+
+def _raises(stmts, cls: str) -> bool:
+    b = strip(stmts)
+    if len(b) != 1 or not isinstance(b[0], ast.Raise) or b[0].exc is None:
+        return False
+    e = b[0].exc
+    return isinstance(e, ast.Call) and isinstance(e.func, ast.Name) and e.func.id == cls
+
+
+def translate_persist(repo: str):
+    sys.path.insert(0, os.path.join(repo, "src"))
+    mod = importlib.import_module("aiomysensors.persistence")
+    out = {}
+    # ---- load
+    try:
+        fn = mod.Persistence.__dict__["load"]
+        st = strip(fn_ast(fn).body)
+        u = [ast.unparse(x) for x in st]
+        if not (len(st) == 4 and u[0] == "path = path or self.path" and isinstance(st[1], ast.Try)
+                and u[2] == "node_schema = NodeSchema()" and isinstance(st[3], ast.Try)):
+            raise Untranslatable("load is not: path default / try read+parse / schema / try restore")
+        t1, t2 = st[1], st[3]
+        b1 = [ast.unparse(x) for x in strip(t1.body)]
+        if b1 != ["async with aiofiles.open(path) as fil:\n    read = await fil.read()", "data: dict = json.loads(read or '{}')"] \
+                or t1.orelse or t1.finalbody:
+            raise Untranslatable("first try of load: " + " / ".join(b1)[:200])
+        clauses = []
+        for h in t1.handlers:
+            hb = [ast.unparse(x) for x in strip(h.body)]
+            if hb == ["await self.save()", "return"]:
+                act = ".saveAndReturn"
+            elif _raises(h.body, "PersistenceReadError"):
+                act = ".raiseRead"
+            else:
+                raise Untranslatable("handler of the first try of load: " + " / ".join(hb)[:160])
+            clauses.append(f"({_classes(h, fn.__globals__)}, {act})")
+        b2 = [ast.unparse(x) for x in strip(t2.body)]
+        if b2 != ["for node_data in data.values():\n    node: Node = node_schema.load(node_data)\n    self.nodes[node.node_id] = node"] \
+                or t2.orelse or t2.finalbody or len(t2.handlers) != 1 or not _raises(t2.handlers[0].body, "PersistenceReadError"):
+            raise Untranslatable("second try of load: " + " / ".join(b2)[:200])
+        out["load"] = {"lean": "def load (cur : PDict Int Node) (fs : Persist.FileState) : Except Persist.Exn Persist.Loaded :=\n"
+                               f"  LP.tryRead cur (LP.openReadParse fs) [{', '.join(clauses)}] fun data =>\n"
+                               f"  LP.catchRead (LP.loadEach cur data) {_classes(t2.handlers[0], fn.__globals__)}"}
+    except (Untranslatable, KeyError, TypeError, OSError, AttributeError, IndexError) as err:
+        out["load"] = {"error": f"{type(err).__name__}: {err}"[:300]}
+    # ---- save
+    try:
+        fn = mod.Persistence.__dict__["save"]
+        st = strip(fn_ast(fn).body)
+        u = [ast.unparse(x) for x in st]
+        want_head = ["data = {}", "node_schema = NodeSchema()",
+                     "for node in self.nodes.values():\n    data[node.node_id] = node_schema.dump(node)"]
+        if u[:3] != want_head or len(st) != 4 or not isinstance(st[3], ast.Try):
+            raise Untranslatable("save does not start by dumping every node into a dict, then one try: " + " / ".join(u)[:200])
+        t = st[3]
+        tb = strip(t.body)
+        if len(tb) != 1 or not isinstance(tb[0], ast.AsyncWith) or len(tb[0].items) != 1 or t.orelse or t.finalbody \
+                or len(t.handlers) != 1 or not _raises(t.handlers[0].body, "PersistenceWriteError"):
+            raise Untranslatable("try of save")
+        w = tb[0]
+        ops = []
+        opn = ast.unparse(w.items[0].context_expr)
+        if opn == "aiofiles.open(self.path, mode='w')":
+            ops.append(".openTrunc .live")
+        else:
+            raise Untranslatable("save opens " + opn[:80])
+        for x in strip(w.body):
+            ux = ast.unparse(x)
+            if ux == "await fil.write(json.dumps(data, sort_keys=True, indent=2))":
+                ops.append(".write .live new")
+            else:
+                raise Untranslatable("inside the open file: " + ux[:100])
+        ops.append(".close .live")
+        out["saveOps"] = {"lean": "def saveOps (new : FileOps.Bytes) : List FileOps.FsOp :=\n  [" + ", ".join(ops) + "]\n\n"
+                                  f"def saveErr (c : PyExn) : Persist.Exn := LP.writeErr {_classes(t.handlers[0], fn.__globals__)} c"}
+    except (Untranslatable, KeyError, TypeError, OSError, AttributeError, IndexError) as err:
+        out["saveOps"] = {"error": f"{type(err).__name__}: {err}"[:300]}
+    return out
+
+
+PERSIST_HEADER = """/-
+GENERATED by tools/translate.py from `Persistence.load` / `Persistence.save` (persistence.py) — do not edit.
+Regenerated on every check run of C13 / C14 / C15; rewritten only when its content changes.  A definition marked
+`-- snapshot` could not be translated on this run and is the last committed translation.
+-/
+import AioMySensors.Model.LitPersist
+
+set_option linter.unusedVariables false
+
+namespace AioMySensors.GenPersist
+open AioMySensors AioMySensors.FileOps
+
+"""
+PERSIST_ORDER = ["load", "saveOps"]
+
+
 HEADER = """/-
 GENERATED by tools/translate.py from the handler bodies of the aiomysensors working tree — do not edit.
 Regenerated on every check run; rewritten only when its content changes.  A definition marked
@@ -1954,6 +2066,7 @@ def main() -> int:
     ap.add_argument("--stream-out", default=None, help="also translate StreamTransport into this file")
     ap.add_argument("--codec-out", default=None, help="also translate the decoder's validators into this file")
     ap.add_argument("--mqtt-out", default=None, help="also translate the MQTT topic/line mapping into this file")
+    ap.add_argument("--persist-out", default=None, help="also translate Persistence.load / save into this file")
     ap.add_argument("--force-snapshot", action="store_true", help="write every body from the snapshot")
     a = ap.parse_args()
     try:
@@ -1997,117 +2110,49 @@ def main() -> int:
     if a.json:
         with open(a.json, "w", encoding="utf-8") as f:
             json.dump(status, f, indent=1, sort_keys=True)
-    if a.stream_out:
+    groups = [("stream", a.stream_out, translate_stream, list(STREAM_SIGS), STREAM_HEADER, "", "AioMySensors.GenStream"),
+              ("codec", a.codec_out, translate_codec, CODEC_ORDER, CODEC_HEADER, CODEC_GLUE, "AioMySensors.GenCodec"),
+              ("mqtt", a.mqtt_out, translate_mqtt, MQTT_ORDER, MQTT_HEADER, "", "AioMySensors.GenMqtt"),
+              ("persist", a.persist_out, translate_persist, PERSIST_ORDER, PERSIST_HEADER, "", "AioMySensors.GenPersist")]
+    for gname, gout, gfun, gorder, gheader, gglue, gns in groups:
+        if not gout:
+            continue
         try:
-            sres = {} if a.force_snapshot else translate_stream(a.repo)
+            gres = {} if a.force_snapshot else gfun(a.repo)
         except Exception as err:  # noqa: BLE001
-            print(f"TRANSLATE-STREAM-FAILED {type(err).__name__}: {err}")
-            sres = {}
-        schunks = []
-        for name in STREAM_SIGS:
-            key = "stream." + name
-            r = sres.get(name, {"error": "snapshot forced" if a.force_snapshot else "not attempted"})
+            print(f"TRANSLATE-{gname.upper()}-FAILED {type(err).__name__}: {err}")
+            gres = {}
+        gchunks = []
+        for name in gorder:
+            key = gname + "." + name
+            r = gres.get(name, {"error": "snapshot forced" if a.force_snapshot else "not attempted"})
             if "lean" in r:
-                schunks.append(r["lean"])
+                gchunks.append(r["lean"])
                 status[key] = "translated" if snap.get(key) == r["lean"] else "translated-changed"
             elif key in snap:
-                schunks.append("-- snapshot (untranslatable on this run: " + r["error"].replace("\n", " ") + ")\n" + snap[key])
+                gchunks.append("-- snapshot (untranslatable on this run: " + r["error"].replace("\n", " ") + ")\n" + snap[key])
                 status[key] = "untranslatable: " + r["error"]
             else:
                 print(f"TRANSLATE-FAILED {key}: {r['error']} (and no snapshot)")
                 return 1
-        stext = STREAM_HEADER + "\n\n".join(schunks) + "\n\nend AioMySensors.GenStream\n"
+        gtext = gheader + "\n\n".join(gchunks) + ("\n\n" + gglue if gglue else "") + f"\n\nend {gns}\n"
         try:
-            with open(a.stream_out, encoding="utf-8") as f:
-                sold = f.read()
+            with open(gout, encoding="utf-8") as f:
+                gold = f.read()
         except OSError:
-            sold = None
-        if sold != stext:
-            with open(a.stream_out, "w", encoding="utf-8") as f:
-                f.write(stext)
+            gold = None
+        if gold != gtext:
+            with open(gout, "w", encoding="utf-8") as f:
+                f.write(gtext)
         if a.update_snapshot:
             with open(a.snapshot, encoding="utf-8") as f:
                 cur = json.load(f)
-            cur.update({"stream." + n: sres[n]["lean"] for n in STREAM_SIGS if "lean" in sres.get(n, {})})
+            cur.update({gname + "." + n: gres[n]["lean"] for n in gorder if "lean" in gres.get(n, {})})
             with open(a.snapshot, "w", encoding="utf-8") as f:
                 json.dump(cur, f, indent=1, sort_keys=True)
-        if a.json:
-            with open(a.json, "w", encoding="utf-8") as f:
-                json.dump(status, f, indent=1, sort_keys=True)
-    if a.codec_out:
-        try:
-            cres = {} if a.force_snapshot else translate_codec(a.repo)
-        except Exception as err:  # noqa: BLE001
-            print(f"TRANSLATE-CODEC-FAILED {type(err).__name__}: {err}")
-            cres = {}
-        cchunks = []
-        for name in CODEC_ORDER:
-            key = "codec." + name
-            r = cres.get(name, {"error": "snapshot forced" if a.force_snapshot else "not attempted"})
-            if "lean" in r:
-                cchunks.append(r["lean"])
-                status[key] = "translated" if snap.get(key) == r["lean"] else "translated-changed"
-            elif key in snap:
-                cchunks.append("-- snapshot (untranslatable on this run: " + r["error"].replace("\n", " ") + ")\n" + snap[key])
-                status[key] = "untranslatable: " + r["error"]
-            else:
-                print(f"TRANSLATE-FAILED {key}: {r['error']} (and no snapshot)")
-                return 1
-        ctext = CODEC_HEADER + "\n\n".join(cchunks) + "\n\n" + CODEC_GLUE + "\n\nend AioMySensors.GenCodec\n"
-        try:
-            with open(a.codec_out, encoding="utf-8") as f:
-                cold = f.read()
-        except OSError:
-            cold = None
-        if cold != ctext:
-            with open(a.codec_out, "w", encoding="utf-8") as f:
-                f.write(ctext)
-        if a.update_snapshot:
-            with open(a.snapshot, encoding="utf-8") as f:
-                cur = json.load(f)
-            cur.update({"codec." + n: cres[n]["lean"] for n in CODEC_ORDER if "lean" in cres.get(n, {})})
-            with open(a.snapshot, "w", encoding="utf-8") as f:
-                json.dump(cur, f, indent=1, sort_keys=True)
-        if a.json:
-            with open(a.json, "w", encoding="utf-8") as f:
-                json.dump(status, f, indent=1, sort_keys=True)
-    if a.mqtt_out:
-        try:
-            mres = {} if a.force_snapshot else translate_mqtt(a.repo)
-        except Exception as err:  # noqa: BLE001
-            print(f"TRANSLATE-MQTT-FAILED {type(err).__name__}: {err}")
-            mres = {}
-        mchunks = []
-        for name in MQTT_ORDER:
-            key = "mqtt." + name
-            r = mres.get(name, {"error": "snapshot forced" if a.force_snapshot else "not attempted"})
-            if "lean" in r:
-                mchunks.append(r["lean"])
-                status[key] = "translated" if snap.get(key) == r["lean"] else "translated-changed"
-            elif key in snap:
-                mchunks.append("-- snapshot (untranslatable on this run: " + r["error"].replace("\n", " ") + ")\n" + snap[key])
-                status[key] = "untranslatable: " + r["error"]
-            else:
-                print(f"TRANSLATE-FAILED {key}: {r['error']} (and no snapshot)")
-                return 1
-        mtext = MQTT_HEADER + "\n\n".join(mchunks) + "\n\nend AioMySensors.GenMqtt\n"
-        try:
-            with open(a.mqtt_out, encoding="utf-8") as f:
-                mold = f.read()
-        except OSError:
-            mold = None
-        if mold != mtext:
-            with open(a.mqtt_out, "w", encoding="utf-8") as f:
-                f.write(mtext)
-        if a.update_snapshot:
-            with open(a.snapshot, encoding="utf-8") as f:
-                cur = json.load(f)
-            cur.update({"mqtt." + n: mres[n]["lean"] for n in MQTT_ORDER if "lean" in mres.get(n, {})})
-            with open(a.snapshot, "w", encoding="utf-8") as f:
-                json.dump(cur, f, indent=1, sort_keys=True)
-        if a.json:
-            with open(a.json, "w", encoding="utf-8") as f:
-                json.dump(status, f, indent=1, sort_keys=True)
+    if a.json:
+        with open(a.json, "w", encoding="utf-8") as f:
+            json.dump(status, f, indent=1, sort_keys=True)
     bad = [n for n, s in status.items() if s.startswith("untranslatable")]
     changed = [n for n, s in status.items() if s == "translated-changed"]
     print(f"TRANSLATE-OK bodies={len(status)} untranslatable={len(bad)} changed={len(changed)}"
